@@ -114,9 +114,12 @@ def menu(f):
         add('slice', n >= 2, sel=[[d, ['s', 1, None, None]]])
         add('slice', n >= 2, sel=[[d, ['s', None, -1, None]]])
         add('slice', n >= 1, sel=[[d, ['l', [0, n - 1]]]])
+        # the documented short names f.slice / f.subset / f.apply are the same operations
+        add('slice', n >= 2, sel=[[d, ['s', 1, None, None]]], alias=True)
     if len(vl) >= 1:
         add('subset', True, keys=[vl[0]])
         add('subset', len(vl) >= 2, keys=[vl[0]], exclude=True)
+        add('subset', True, keys=[vl[-1]], alias=True)
         newv = next((n for n in ('RN1', 'RN2') if n not in f.variables), None)
         if newv:
             add('renameVariable', True, old=vl[-1], new=newv)
@@ -135,6 +138,7 @@ def menu(f):
         n = dims[d]
         add('apply', n >= 1, dim=d, fn=['r', 'mean'])
         add('apply', n >= 1, dim=d, fn=['r', 'max'])
+        add('apply', n >= 1, dim=d, fn=['r', 'mean'], alias=True)
         add('apply', n >= 2, dim=d, fn=['f', 'diff'])
     add('mask', True, greater=10010.5)
     # masking that also looks at coordinate variables: the time flags must come out untouched
@@ -158,9 +162,10 @@ def do_op(f, op):
     if n == 'copy_nodata':
         return f.copy(data=False)
     if n == 'slice':
-        return f.sliceDimensions(**OrderedDict((d, rops.sel_to_py(tuple(s))) for d, s in op['sel']))
+        return (f.slice if op.get('alias') else f.sliceDimensions)(
+            **OrderedDict((d, rops.sel_to_py(tuple(s))) for d, s in op['sel']))
     if n == 'subset':
-        return f.subsetVariables(list(op['keys']), exclude=op.get('exclude', False))
+        return (f.subset if op.get('alias') else f.subsetVariables)(list(op['keys']), exclude=op.get('exclude', False))
     if n == 'renameVariable':
         return f.renameVariable(op['old'], op['new'])
     if n == 'renameVariables_only':
@@ -175,7 +180,8 @@ def do_op(f, op):
         return f.eval(op['expr'], inplace=False, copyall=op.get('copyall', False))
     if n == 'apply':
         fn = op['fn']
-        return f.applyAlongDimensions(**{op['dim']: fn[1] if fn[0] == 'r' else rops.FUNCS[fn[1]]})
+        return (f.apply if op.get('alias') else f.applyAlongDimensions)(
+            **{op['dim']: fn[1] if fn[0] == 'r' else rops.FUNCS[fn[1]]})
     if n == 'mask':
         return f.mask(greater=op['greater'], coords=op.get('coords', False))
     if n == 'stack':
